@@ -1010,7 +1010,14 @@ func totalComparator(m *mapClassifier, call *ast.CallExpr) bool {
 	if !ok {
 		return false
 	}
-	if want, listed := c08Comparators[declName(m.pk, m.fn)]; listed {
+	want, listed := c08Comparators[declName(m.pk, m.fn)]
+	if !listed {
+		// a fact about the TYPE of the map the elements were collected from holds wherever the loop stands
+		if tv, ok := m.pk.TypesInfo.Types[m.rs.X]; ok && tv.Type != nil {
+			want, listed = c08ComparatorsByType[core.ShortType(tv.Type)]
+		}
+	}
+	if listed {
 		// a listed comparator must still compare every listed field of both elements
 		// each listed field must be compared BETWEEN the two elements: some relational expression (or a one-argument
 		// method call such as Before/Equal) selects the field from the first element on one side and from the second
@@ -1139,9 +1146,12 @@ func totalComparator(m *mapClassifier, call *ast.CallExpr) bool {
 
 // c08Comparators: comparators that are total because their last key is unique per collected element.
 // value = the fields the comparator must compare on both elements.
-var c08Comparators = map[string][]string{
+var c08Comparators = map[string][]string{}
+
+// c08ComparatorsByType: the same, as a fact about the type of the map that was ranged over.
+var c08ComparatorsByType = map[string][]string{
 	// Results is keyed by Snakify(Name); distinct entries have distinct names
-	"flows/runs.legacyExtra.addResults": {"CreatedOn", "Name"},
+	"flows.Results": {"CreatedOn", "Name"},
 }
 
 // isPerKeyObjectCall: `obj.Method(...)` where obj is a loop-local whose initialiser looks something up by the
